@@ -326,6 +326,24 @@ def special_layout(g, which):
                 if k > 40:
                     break
         return cfg, ops
+    if which == 'udf-many-files':
+        # more than 256 sectors of small files: a file starts at every sector of the image's tail, also
+        # at the one, 256 sectors before the end, that is reserved for an optional third anchor
+        cfg = Cfg(level=r.choice([1, 3]), udf=True, joliet=r.choice([None, 3]), rr=r.choice([None, '1.09']))
+        ops = []
+        n = r.choice([258, 270, 300, 330])
+        for k in range(n):
+            o = {'op': 'add_fp', 'cid': 8700 + k, 'length': r.choice([1, 2048, 700, 2048, 2049]) if k % 7 else 2048, 'iso_path': '/M%04d.;1' % k}
+            if k % 3 == 0:
+                o['udf_path'] = '/m%04d' % k
+            if cfg.rr:
+                o['rr_name'] = 'm%04d' % k
+            ops.append(o)
+        if r.random() < 0.4:
+            ops.append({'op': 'reopen', 'reuse': False})
+            for k in range(r.choice([1, 5])):
+                ops.append({'op': 'rm_file', 'iso_path': '/M%04d.;1' % r.randrange(n)})
+        return cfg, ops
     if which == 'udf-exact-fill':
         # FIDs filling a sector exactly: parent FID 40 bytes, name n -> 38+1+n rounded to 4
         cfg = Cfg(level=3, udf=True)
@@ -526,4 +544,4 @@ def special_layout(g, which):
 
 
 SPECIALS = ['exact-fill', 'udf-big-dir', 'udf-exact-fill', 'exact-fill-root', 'exact-fill-multi', 'exact-fill-spill',
-            'shrink-subdir', 'grow-subdir', 'deep-reloc', 'joliet-exact-fill', 'many-dirs', 'reloc-spill']
+            'shrink-subdir', 'grow-subdir', 'deep-reloc', 'joliet-exact-fill', 'many-dirs', 'reloc-spill', 'udf-many-files']
